@@ -56,6 +56,7 @@ type FuncSpec struct {
 	NoSafety  bool   // panics end the path instead of being obligations (termination-only behaviors)
 	Driver    bool   // driver-level target (ghost I/O, fail-stop obligations)
 	AssumePre bool   // callee preconditions assumed, not proved
+	Given     []string // statements establishing the initial state of the case
 	ExitNonZero bool // os.Exit must be called with a non-zero status
 }
 
